@@ -50,6 +50,7 @@ var avsSentinels = []struct {
 	{"ErrCallerAddressUnauthorized", avstypes.ErrCallerAddressUnauthorized},
 	{"ErrAvsNameMismatch", avstypes.ErrAvsNameMismatch},
 	{"ErrNotNull", avstypes.ErrNotNull},
+	{"ErrHashValue", avstypes.ErrHashValue},
 	{"ErrInvalidAddr", avstypes.ErrInvalidAddr},
 	{"ErrAlreadyExists", avstypes.ErrAlreadyExists},
 	{"ErrTaskIsNotExists", avstypes.ErrTaskIsNotExists},
@@ -940,7 +941,7 @@ func (h *avsH) genUpdate() {
 		u.assets = []string{h.asset0}
 	}
 	u.unbonding = []uint64{0, 1, 2, 7, 7, 7}[r.Intn(6)]
-	u.minSelf = []uint64{0, 0, 1, 7, 50, 100, 101, 1000, 1<<63 - 1}[r.Intn(9)]
+	u.minSelf = []uint64{0, 0, 1, 7, 50, 100, 101, 1000, 1<<63 - 1, 1 << 63, 1<<64 - 1}[r.Intn(11)]
 	u.epochID = []string{epochstypes.MinuteEpochID, epochstypes.MinuteEpochID, epochstypes.MinuteEpochID, epochstypes.MinuteEpochID, epochstypes.HourEpochID, "", "nope"}[r.Intn(7)]
 	u.caller = []string{h.owners[0], h.owners[0], h.owners[0], h.owners[1], h.stranger}[r.Intn(5)]
 	if u.action == 2 && r.Chance(3, 4) { // mostly the right name
@@ -1015,9 +1016,12 @@ func (h *avsH) genSubmit() {
 	if r.Chance(2, 3) {
 		t = tasks[len(tasks)-1-r.Intn(min(len(tasks), 3))]
 	}
-	// steer: only operators listed in the task's OptInOperators submit valid results (a signer
-	// outside that list triggers the known `Difference` finding F-20c, replayed by a directed scenario)
+	// mostly operators listed in the task's OptInOperators, sometimes any other operator (a signer
+	// outside that list was also recorded as a non-signer before the repair of F-20c)
 	cands := t.info.OptInOperators
+	if h.rng.Chance(1, 5) {
+		cands = h.opAddrs
+	}
 	var op string
 	if len(cands) > 0 {
 		op = cands[r.Intn(len(cands))]
@@ -1067,8 +1071,8 @@ func (h *avsH) genSubmit() {
 	case 4:
 		s.sig = nil
 	case 5:
-		if stage == "2" {
-			s.sig = []byte{} // empty-but-present is only dangerous in phase one (F-11b: directed scenario)
+		if stage == "2" || r.Chance(1, 2) {
+			s.sig = []byte{} // empty-but-present: accepted in phase one before the repair of F-11b
 		} else {
 			s.sig = []byte{0xab, 0xcd}
 		}
@@ -1097,12 +1101,6 @@ func (h *avsH) genSubmit() {
 			s.resp = respJSON(id, 999) // a different answer than the one committed to
 		}
 	}
-	// (steering, see above) a mutated task address / id must not land on another existing task whose
-	// opted-in list does not contain the operator
-	if tt, e := h.c.App.AVSManagerKeeper.GetTaskInfo(h.c.Ctx, strconv.FormatUint(s.id, 10), s.taskAddr); e == nil &&
-		indexIn(tt.OptInOperators, s.op) < 0 && s.op != h.stranger {
-		s.taskAddr, s.id = t.addr, id
-	}
 	h.doSubmit(s)
 }
 
@@ -1126,8 +1124,8 @@ func (h *avsH) genChallenge() {
 	}
 	k := rkey(op, t.addr, t.info.TaskId)
 	ch := avsChal{taskAddr: t.addr, id: t.info.TaskId, op: op, taskHash: t.info.Hash, caller: h.owners[0]}
-	// steer: the task hash is always the right one (a wrong hash makes the keeper return success
-	// without recording anything — known finding F-20b, replayed by a directed scenario)
+	// (a wrong task hash made the keeper return success without recording anything before the
+	// repair of F-20b: it is part of the malformed stream below)
 	if resp, ok := h.acc2[k]; ok {
 		ch.respHash = abiDigest(resp)
 	} else {
@@ -1142,9 +1140,11 @@ func (h *avsH) genChallenge() {
 		ch.caller = "notbech32"
 	case 3:
 		ch.taskAddr = h.pick(h.taskPool)
+	case 4:
+		ch.taskHash = []byte("WRONG")
 	}
-	// (steering, see above) whatever task is finally named, its own hash is sent
-	if tt, e := h.c.App.AVSManagerKeeper.GetTaskInfo(h.c.Ctx, strconv.FormatUint(ch.id, 10), ch.taskAddr); e == nil {
+	// whatever task is finally named, mostly its own hash is sent
+	if tt, e := h.c.App.AVSManagerKeeper.GetTaskInfo(h.c.Ctx, strconv.FormatUint(ch.id, 10), ch.taskAddr); e == nil && r.Chance(3, 4) && string(ch.taskHash) != "WRONG" {
 		ch.taskHash = tt.Hash
 	}
 	h.doChallenge(ch)
@@ -1279,6 +1279,31 @@ func (h *avsH) directedEmptySig() {
 	h.directed = ""
 }
 
+// F-11b, second half: a store that already holds a phase-one result without signature (written by
+// the pre-fix code; here: written straight into the x/avs store) must not halt the chain either.
+func (h *avsH) directedLegacyNilSig() {
+	h.directed = "F-11b"
+	avs, ta, o := h.avsPool[0], h.taskPool[0], h.opAddrs[0]
+	h.doUpdate(avsUpd{action: 1, addr: avs, name: "n0", taskAddr: ta, owners: []string{h.owners[0]}, assets: []string{h.asset0},
+		unbonding: 7, minSelf: 0, epochID: epochstypes.MinuteEpochID, caller: h.owners[0]})
+	h.doOpt(false, 1, o, avs)
+	h.doBLS(o, 0)
+	h.doBlock(61 * time.Second)
+	h.doTask(avsTaskP{taskAddr: ta, caller: h.owners[0], name: "t", hash: []byte("req"), resp: 1, stat: 1, chal: 1})
+	info := &avstypes.TaskResultInfo{OperatorAddress: o, TaskContractAddress: ta, TaskId: 1, Stage: avstypes.TwoPhaseCommitOne}
+	st := prefix.NewStore(h.c.Ctx.KVStore(h.c.App.GetKey(avstypes.StoreKey)), avstypes.KeyPrefixTaskResult)
+	st.Set([]byte(o+"/"+ta+"/1"), h.c.App.AppCodec().MustMarshal(info))
+	h.env.Note("F-11b.legacy-result-injected")
+	// the injected result is not part of the model's state: blocks only, no dump
+	for i := 0; i < 6 && !h.halted; i++ {
+		h.doBlock(61 * time.Second)
+	}
+	if !h.halted {
+		h.env.Note("F-11b.legacy-result-survived")
+	}
+	h.directed = ""
+}
+
 // F-20b: a challenge with a wrong task hash returns success (errorsmod.Wrap(nil, …) == nil) at any
 // time, any number of times, and records nothing.
 func (h *avsH) directedChallengeHash() {
@@ -1353,7 +1378,7 @@ func domAvs(env *Env) error {
 		}
 	}
 	if directed == 1 {
-		for i, f := range []func(){h.directedEmptySig, h.directedChallengeHash, h.directedOutsider, h.directedMinWrap} {
+		for i, f := range []func(){h.directedEmptySig, h.directedLegacyNilSig, h.directedChallengeHash, h.directedOutsider, h.directedMinWrap} {
 			h.start(env, env.Report.Seed*1000+900+uint64(i), 2, rng)
 			f()
 			finish("directed", i)
